@@ -31,15 +31,15 @@ type c24Speller struct {
 	r *rand.Rand
 }
 
-func (s *c24Speller) chance(p float64) bool { return s.r.Float64() < p }
+func (s *c24Speller) chance(p float64) bool    { return s.r.Float64() < p }
 func (s *c24Speller) pick(xs ...string) string { return xs[s.r.Intn(len(xs))] }
 
 // digits renders mag in base with optional leading zeros, random letter case and '_' separators.
 type c24DigitStyle struct {
-	lead   int     // leading zeros to add
-	sep    float64 // probability of a separator run between two digits
-	multi  bool    // separator runs may be longer than one
-	upper  float64 // probability of an upper-case letter digit
+	lead  int     // leading zeros to add
+	sep   float64 // probability of a separator run between two digits
+	multi bool    // separator runs may be longer than one
+	upper float64 // probability of an upper-case letter digit
 }
 
 func (s *c24Speller) style(l *c24Lit) c24DigitStyle {
